@@ -6,6 +6,8 @@ record; probes on an unrelated upstream must keep working throughout."""
 import asyncio
 import random
 import signal
+import socket
+import struct
 
 from .lib import (Out, Proxy, TcpOrigin, base_cfg, echo_handler, free_port, now, open_conn, run_main, tls_client, tls_server, workdir)
 
@@ -277,6 +279,113 @@ async def halfclosed_after_outage(out, args, wd):
             await D.stop()
         except Exception:
             pass
+
+
+async def died_mid_handshake(out, args, wd):
+    """an upstream proxy (http, socks5) that dies while answering the proxy's handshake: it has written the first k bytes of its
+    reply (every k, so also 'status line but no blank line yet') and then goes away with FIN or RST. The request in flight fails
+    cleanly (the client is not told 'established', the record carries an error and ends); after the 'restart' (the same port answers
+    completely again) the next request succeeds at once."""
+    from .lib import http_connect
+    mode = {"cut": None, "rst": False}
+    writers = set()
+
+    async def fake(kind, r, w):
+        try:
+            if kind == "h":
+                await r.readuntil(b"\r\n\r\n")
+                reply = b"HTTP/1.1 200 Connection established\r\nServer: fake\r\n\r\n"
+            else:
+                g = await r.readexactly(2)
+                await r.readexactly(g[1])
+                w.write(b"\x05\x00")
+                await w.drain()
+                h = await r.readexactly(4)
+                alen = {1: 4, 4: 16}.get(h[3]) or (await r.readexactly(1))[0]
+                await r.readexactly(alen + 2)
+                reply = b"\x05\x00\x00\x01\x7f\x00\x00\x01\x12\x34"
+            cut = mode["cut"]
+            if cut is not None:
+                w.write(reply[:min(cut, len(reply) - 1)])
+                await w.drain()
+                await asyncio.sleep(0.05)
+                if mode["rst"]:
+                    w.get_extra_info("socket").setsockopt(socket.SOL_SOCKET, socket.SO_LINGER, struct.pack("ii", 1, 0))
+                w.close()
+                return
+            w.write(reply)
+            await w.drain()
+            while True:
+                b = await r.read(65536)
+                if not b:
+                    break
+                w.write(b)
+                await w.drain()
+            w.close()
+        except Exception:
+            try:
+                w.close()
+            except Exception:
+                pass
+    ups = {k: await asyncio.start_server(lambda r, w, k=k: fake(k, r, w), "127.0.0.1", 0) for k in ("h", "s")}
+    uport = {k: v.sockets[0].getsockname()[1] for k, v in ups.items()}
+    P = {k: free_port() for k in ("http", "api")}
+    M = Proxy(args.bin, base_cfg([{"name": "http", "bind": "127.0.0.1:%d" % P["http"]}],
+                                 [{"name": "h", "type": "http", "server": "127.0.0.1", "port": uport["h"]}, {"name": "s", "type": "socks", "server": "127.0.0.1", "port": uport["s"]}],
+                                 [{"filter": "request.target.port == 1", "target": "h"}, {"target": "s"}], metrics_port=P["api"], history=10000), "MH", wd)
+    try:
+        await M.start()
+        lens = {"h": len(b"HTTP/1.1 200 Connection established\r\nServer: fake\r\n\r\n"), "s": 10}
+        for kind in ("h", "s"):
+            cuts = list(range(lens[kind])) if (args.thorough or kind == "s") else sorted(set([0, 1, 8, 9, 12, 13, 35, 36, 37, 38, 39, 40, 49, 50, 51, 52, 53] + [args.seed % lens[kind]]))
+            for cut in cuts:
+                for rst in (False, True):
+                    out.case()
+                    mode["cut"], mode["rst"] = cut, rst
+                    what = "%s upstream gone (%s) after %d of %d reply bytes" % ({"h": "http", "s": "socks5"}[kind], "RST" if rst else "FIN", cut, lens[kind])
+                    c = await open_conn("127.0.0.1", P["http"])
+                    src = c.local[1]
+                    try:
+                        st, _ = await http_connect(c, "127.0.0.1", 1 if kind == "h" else 2)
+                    except Exception as e:
+                        st = None
+                    c.close()
+                    if st == 200:
+                        out.violation("client told 'established' although the upstream died during its handshake reply", {"fault": what})
+                    await asyncio.sleep(0.05)
+                    rec = None
+                    for _ in range(40):
+                        hist = await M.api_json("/history", timeout=20)
+                        rec = next((h for h in hist if int(h["source"].rsplit(":", 1)[1]) == src), None)
+                        if rec is not None:
+                            break
+                        await asyncio.sleep(0.1)
+                    if rec is None:
+                        out.violation("request that was in flight when the upstream died is not recorded as finished", {"fault": what})
+                    elif not rec.get("error"):
+                        out.violation("request that was in flight when the upstream died is recorded without an error", {"fault": what, "state": [x.get("state") for x in rec.get("state", [])] if isinstance(rec.get("state"), list) else rec.get("state")})
+                    # "restart": the same port answers completely again - the very next request must work
+                    mode["cut"] = None
+                    c = await open_conn("127.0.0.1", P["http"])
+                    try:
+                        st2, _ = await http_connect(c, "127.0.0.1", 1 if kind == "h" else 2)
+                        ok = False
+                        if st2 == 200:
+                            c.write(b"ping-after-restart")
+                            await c.drain()
+                            ok = (await c.read_exact(18, timeout=10)) == b"ping-after-restart"
+                    except Exception:
+                        ok = False
+                    c.close()
+                    if not ok:
+                        out.violation("first request after the upstream came back fails (upstream died mid-handshake before)", {"fault": what})
+                    out.nontrivial((kind, "died-mid-handshake", cut, rst))
+        if not M.alive():
+            out.violation("proxy process died", {"proxy": "MH"})
+    finally:
+        M.kill()
+        for v in ups.values():
+            v.close()
 
 
 async def main(args):
@@ -578,7 +687,7 @@ async def main(args):
         await A.start()
         hs = asyncio.ensure_future(healthy_stream())
         await asyncio.sleep(0.3)
-        await asyncio.gather(*([run_scenario(s) for s in scen] + [udp_outage(out, args, wd), shared_quic(out, args, wd, O.port), halfclosed_after_outage(out, args, wd)]))
+        await asyncio.gather(*([run_scenario(s) for s in scen] + [udp_outage(out, args, wd), shared_quic(out, args, wd, O.port), halfclosed_after_outage(out, args, wd), died_mid_handshake(out, args, wd)]))
         stop_healthy.set()
         await hs
         bad = [(round(t, 1), r, round(l, 2)) for (t, r, l) in healthy if r != "ok" or l > 2.0]
